@@ -40,6 +40,9 @@ CLAIMED = {
  "C19": ("rapid differential testing of 23 parser twin pairs on shared inputs (valid / mutated / arbitrary) and of builder twins on generated arguments; native fuzzing of the twin table (thorough)",
          "Same acceptance, identical serialisation and remainder for each twin pair on ~150k inputs per quick run (common domain per pair stated in the test), five key-certificate construction routes and the constructor twins on ~40k argument tuples.",
          "Twins are compared only inside the domain both document (e.g. fixed-size readers on certificates declaring their sizes).", "DESIGN.md 5/C19"),
+ "C05": ("rapid property-based testing with an independent verifier (stdlib ed25519/ecdsa/dsa over the raw received bytes) as oracle; generators = model-built, stdlib-signed structures x adversarial derivations (forged/transplanted offline blocks, attacker-key signatures, structure-aware byte edits)",
+         "Soundness only: whenever the library parses a derived input and reports successful verification, the strict model must decode exactly the consumed bytes and the signature chain (identity key -> optional transient key -> outer signature with the 0x03/0x07/0x05 prefix) must hold over those bytes. ~40k derivations per quick run, ~60% still parse; the evidence counts genuine bases that verify so the check cannot be vacuous.",
+         "crypto/ed25519, crypto/ecdsa, crypto/dsa and the I2P DSA parameters are trusted; forging is explored structurally, not cryptanalytically. ECDSA-signed structures never verify in this tree (go-i2p/crypto rejects the 64/96-byte key format: fails closed), so P-256/P-384 bases only exercise the rejecting side.", "DESIGN.md 5/C05"),
 }
 checks = []
 for pid in ids:
